@@ -10,6 +10,9 @@
                              logarithmic, shared or per-component boundary pairs (bounded shapes, symbolic bounds)
   inbox (lemma)              lbd <= d <= ubd component-wise  =>  applied value inside its declared [low, high]
   report.same_map            champions and best individuals are reported through the same convert_to_parameters
+  report.champions / .best   _get_champions / get_best_individuals executed symbolically with pygmo and xarray as boundary objects:
+                             the reported parameters are convert_to_parameters of the SAME array that is reported as decision, the
+                             fitness comes from the same individuals, one selection per island dataset (contracts/calibreport.py)
 """
 from __future__ import annotations
 
@@ -23,8 +26,10 @@ AD = "pyxel/calibration/archipelago_datatree.py"
 PVQ = "pyxel/observation/parameter_values.py"
 BOUNDED = {
     r'^bounds\.layout': 'a fixed family of variable layouts (scalars and vectors of 2..3 components)',
+    r'^report\.best': 'archipelagos of 1 or 3 islands',
 }      # unit-name / obligation-name patterns -> the family these obligations are proved for
-TRUSTED = ["real arithmetic; 10**x and log10 are uninterpreted, strictly monotone and mutually inverse on positives (10**log10(b) may differ from b by an ulp in binary64)",
+TRUSTED = ["pygmo / xarray objects of the reporting path are boundary objects (provenance obligations; sel / argsort / concat do what their names say)",
+           "real arithmetic; 10**x and log10 are uninterpreted, strictly monotone and mutually inverse on positives (10**log10(b) may differ from b by an ulp in binary64)",
            "pygmo only proposes vectors inside get_bounds()", "offset monotonicity lemma off(J+1) <= off(k) for J < k (proved by induction, then used as an instance)",
            "_set_bound is proved on bounded shapes (1..3 variables, vector widths 1..3) with symbolic bounds"]
 W = z3.Function("width_list", z3.IntSort(), z3.IntSort())         # len(values) when values is a list
@@ -313,3 +318,9 @@ def report_same_map(u: Unit):
         calls = [n for n in ast.walk(fi.node) if isinstance(n, ast.Call) and ast.unparse(n.func).endswith("convert_to_parameters")]
         ok = len(calls) == 1 and var in ast.unparse(calls[0].args[0] if calls[0].args else calls[0].keywords[0].value)
         u.static(f"report.same_map[{name}]", ok, fi.qualname, f"{name}: reported parameters = problem.convert_to_parameters(<{var}>) ({[ast.unparse(c)[:90] for c in calls]})")
+
+
+# the reporting path by symbolic execution with pygmo / xarray as boundary objects (provenance obligations)
+from . import calibreport as _CR  # noqa: E402
+unit("C10", "report.champions")(_CR.champions_unit)
+unit("C10", "report.best")(_CR.best_unit)
